@@ -302,7 +302,11 @@ class IMAPClientProxy:
                         await self.push(f"{imap_cmd.tag} BAD {e}\r\n")
                     else:
                         await self.push(f"* BAD {e}\r\n")
-                    return
+
+                    # The client was told about its mistake. This is no
+                    # reason to drop the connection (and without a BYE.)
+                    #
+                    continue
 
                 # Pass the command on to the command processor to handle.
                 #
